@@ -6,7 +6,8 @@
  * the second loop must drop the rows with norm <= 2, i.e. 2 and 1, and keep 5 and 3.
  * The routine drops 2 and 5 and keeps 1 and 3.   Expected output "kept rows: 10 13 12   values 4 1 3" (wrong),
  * a correct second loop gives "10 14 12  values 4 5 3" (in some order).
- * build: cc -I/repo/SRC D15_drop_row_neighbour_norm.c libslu.a -lm */
+ * build: cc -I/repo/SRC D15_drop_row_neighbour_norm.c <stubs for slu_verif_malloc/free/abort> .work/tree-*/asan/libslu.a -lm -fsanitize=address,undefined
+ * observed on the pinned tree: "dropped 3; kept rows: 10 13 12   values 4 1 3" */
 #include "slu_ddefs.h"
 int main(void) {
     double lusup[6] = { 4, 0.25, 3, 1, 5, 2 }; int_t lsub[6] = { 10, 11, 12, 13, 14, 15 }, xlsub[3] = { 0, 6, 6 }, xlusup[3] = { 0, 6, 6 };
